@@ -1,7 +1,7 @@
 """Rule C08: no public operation panics / overflows in any reachable state."""
 import itertools
 from .mirtab import Engine, Undecided, check_partition, term_str, C
-from .extract import (extract_all_layouts, ScanTable, scancode_impls, initial_state_of, leaf_where, writers_of,
+from .extract import (extract_all_layouts, ScanTable, scancode_impls, initial_state_of, leaf_where, writers_of, public_roots, caller_map,
                       iter_bodies, PANIC, span_line, conc, value_atoms)
 from .rules_event import find_generic_method, field_index, _St
 from .rules_ps2 import find_method, PS2
@@ -85,7 +85,13 @@ def check_no_panic(ctx, rep, tier):
     state0 = lv[0].ret
     # who may write the decoder's fields: they all join the reachable-state exploration
     w = writers_of(ctx, PS2)
-    mutators = sorted(p for p, kinds in w.items() if kinds & {'assign-field', 'assign-whole'} and not prog.fns[p].get('derived'))
+    # (a private helper is entered only through its externally callable callers, which are explored with it inlined)
+    cmap = caller_map(ctx)
+    mutators = set()
+    for p, kinds in w.items():
+        if kinds & {'assign-field', 'assign-whole'} and not prog.fns[p].get('derived'):
+            mutators |= public_roots(ctx, p, callers=cmap)
+    mutators = sorted(p for p in mutators if not prog.fns[p].get('derived'))
     rep.analysed['Ps2Decoder_field_writers'] = mutators
     pub_fields = [fl['name'] for fl in prog.adt(PS2)['variants'][0]['fields'] if fl['vis'] == 'pub']
     if pub_fields:
@@ -155,7 +161,12 @@ def check_no_panic(ctx, rep, tier):
         # extra writers of the state field join the closure
         wr = writers_of(ctx, adt_path)
         reach = t.reachable(init)
-        extra = [p for p, kinds in wr.items() if kinds & {'assign-field', 'assign-whole'} and p != path and not prog.fns[p].get('derived')]
+        extra = set()
+        for p, kinds in wr.items():
+            if kinds & {'assign-field', 'assign-whole'} and p != path and not prog.fns[p].get('derived'):
+                # private helpers reached only through advance_state are already part of its table
+                extra |= public_roots(ctx, p, allowed={path}, callers=cmap)
+        extra = sorted(p for p in extra if p != path and not prog.fns[p].get('derived'))
         for p in extra:
             en = Engine(prog)
             for lf in en.run(p):
